@@ -175,6 +175,7 @@ func Load(cfg Config) (*Prog, error) {
 	resetInlineMemo()
 	aliasOf = map[*ssa.Function]string{}
 	computeInlinable(p)
+	computeNonNilGlobals(p)
 	// resolve anchors
 	aliasOf = map[*ssa.Function]string{}
 	canonFn = map[string]*ssa.Function{}
